@@ -32,12 +32,15 @@ ARITH_ITEMS = [
     # free_list_array::get : the index clamp `i < min_size_index`
     dict(lean="bucketClampCond", name="get", filter="detail::free_list_array", kind="guard", index=0,
          vars=["i", "min_size_index"]),
+    dict(lean="bucketMaxIndexClampCond", name="max_index", filter="detail::free_list_array", kind="guard", index=0,
+         vars=["i", "min_size_index"]),
     # C18 formulas
     dict(lean="freeListMinBlockSize", name="min_block_size", filter="detail::free_memory_list::min_block_size", kind="fn",
          const_map={"min_element_size": "free_min_element_size"}),
     dict(lean="orderedListMinBlockSize", name="min_block_size", filter="detail::ordered_free_memory_list::min_block_size", kind="fn",
          const_map={"min_element_size": "ordered_min_element_size"}),
     dict(lean="smallChunkCount", name="chunk_count", filter="small_free_memory_list::chunk_count", kind="fn"),
+    dict(lean="smallPaddedChunkSize", name="padded_chunk_size", filter="small_free_memory_list::padded_chunk_size", kind="fn"),
     dict(lean="smallListMinBlockSize", name="min_block_size", filter="detail::small_free_memory_list::min_block_size", kind="fn"),
     dict(lean="implementationOffset", name="implementation_offset", filter="memory_block_stack::implementation_offset", kind="fn"),
     dict(lean="freeListUsableSize", name="usable_size", filter="detail::free_memory_list::usable_size", kind="fn"),
@@ -47,8 +50,15 @@ ARITH_ITEMS = [
 ]
 
 GUARD_ITEMS = [
+    dict(lean="stackAllocationFits", name="stack_allocation_fits", filter="detail::stack_allocation_fits", kind="fn"),
+    # fixed_memory_stack::allocate: `cur_ == nullptr` and the rejection test (calls the function above)
+    dict(lean="fixedStackNull", name="allocate", filter="fixed_memory_stack::allocate", kind="guard", index=0, vars=["cur_"]),
     dict(lean="fixedStackRejects", name="allocate", filter="fixed_memory_stack::allocate", kind="guard", index=1,
          vars=["fence_size", "offset", "size", "remaining"]),
+    dict(lean="staticBlockExhausted", name="allocate_block", filter="static_block_allocator::allocate_block", kind="guard", index=0,
+         vars=["cur_", "block_size_", "end_"]),
+    dict(lean="jointBumpRejects", name="bump", filter="joint_stack::bump", kind="guard", index=0,
+         vars=["offset", "end_", "top_"]),
 ]
 
 
@@ -125,7 +135,9 @@ def generate(cfgs=("rwdi",)):
                "sizeof(node)": "sizeof_block_node",
                "sizeof(foonathan::memory::detail::chunk_base)": "sizeof_chunk_base",
                "alignof(foonathan::memory::detail::chunk)": "alignof_chunk",
-               "alignof(chunk)": "alignof_chunk"}
+               "alignof(chunk)": "alignof_chunk",
+               "alignof(foonathan::memory::detail::chunk_base)": "alignof_chunk_base",
+               "alignof(chunk_base)": "alignof_chunk_base"}
     hdr = HEADER + "import MemVerif.Gen.Prelude\nimport MemVerif.Gen.Consts\n"
     sigs = {}
     for fname, items, ns in (("Arith.lean", ARITH_ITEMS, "MemVerif.Gen"), ("Guards.lean", GUARD_ITEMS, "MemVerif.Gen")):
